@@ -49,6 +49,14 @@ func (k Keeper) OnRecvPacket(
 		return ack
 	}
 	receiver, _ := sdk.AccAddressFromBech32(data.Receiver)
+	// the ERC20 tokens are credited to the EVM account made of the receiver's bytes: only a 20-byte
+	// account address has one (common.BytesToAddress would keep the last 20 bytes / left-pad)
+	if len(receiver.Bytes()) != common.AddressLength {
+		event.Status = types.STATUS_FAILED
+		event.Message = fmt.Sprintf("receiver %s is not a %d-byte address: vouchers are not converted", data.Receiver, common.AddressLength)
+		_ = teletypes.EmitTypedEvent(ctx, event)
+		return ack
+	}
 	denom, err := types.IBCDenom(packet.GetDestPort(), packet.GetDestChannel(), data.Denom)
 	if err != nil {
 		event.Status = types.STATUS_FAILED
